@@ -76,6 +76,19 @@ def run_program(ctx, dn, prog, directed, audit, removal=True, every=1, final=Tru
             guarded(ctx, name, audit, ctx, dn, G, m)
     if final:
         guarded(ctx, name, audit, ctx, dn, G, m)
+        if ctx.rng.random() < 0.04 and m.nontrivial() and not any(isinstance(n_, gen.Obj) for n_ in m.nodes):
+            # (ids that hash by identity are not "the same nodes" in a copy: not a meaningful comparison)
+            # the object survives the standard ways of duplicating it
+            import copy
+            import pickle
+            ctx.cell("copied:deepcopy+pickle")
+            try:
+                for how, G2 in (("deepcopy", copy.deepcopy(G)), ("pickle", pickle.loads(pickle.dumps(G)))):
+                    ctx.case["copied_by"] = how
+                    guarded(ctx, name, audit, ctx, dn, G2, m)
+                ctx.case.pop("copied_by", None)
+            except (TypeError, AttributeError, pickle.PicklingError) as ex:
+                ctx.skip("graph not picklable/copyable in this id family: %s" % type(ex).__name__)
     if m.nontrivial():
         ctx.nontrivial(m.state_key(), prog[-1][0] if prog else None)
     return G, m, True
@@ -176,8 +189,9 @@ def random_histories(ctx, dn, audit, until, removal=True, every=1, **genkw):
     return n
 
 
-def stress(ctx, dn, audit, n_ops, every=50):
-    """STRESS: one long history over 2-3 pairs; audits every `every` ops"""
+def stress(ctx, dn, audit, n_ops, every=50, base=0):
+    """STRESS: one long history over 2-3 pairs; audits every `every` ops (base shifts all stamps, e.g. beyond
+    2**53)"""
     directed = ctx.rng.random() < 0.5
     rng = ctx.rng
     m = Model(directed, True)
@@ -194,7 +208,7 @@ def stress(ctx, dn, audit, n_ops, every=50):
             cls = rng.choice(gen.RP_CLASSES[1:] + ("gap", "adjacent", "overlap"))
             span = gen.rp_span(rng, latest, cls, rng.choice(("point", "interval")))
         if span is None:
-            t = rng.randint(0, 5)
+            t = base + rng.randint(0, 5)
             span = (t, None if rng.random() < 0.5 else t + rng.randint(1, 3))
             if k in m.P and m.P[k] and span[0] < runs(m.P[k])[-1][0]:
                 span = (runs(m.P[k])[-1][1] + 2, None)
@@ -227,7 +241,8 @@ def second_life(ctx, dn, audit, n=1):
                 return (op[0], op[1], None if op[2] is None else op[2] + shift, None if op[3] is None else op[3] + shift)
             return (op[0], op[1], None if op[2] is None else op[2] + shift)
         reset = (ctx.rng.choice(("clear", "clear_edges")),)
-        full = list(prog) + [reset] + [sh(op) for op in prog]
+        resets = [reset] * ctx.rng.choice((1, 1, 2, 3))         # emptied once, or several times in a row
+        full = list(prog) + resets + [sh(op) for op in prog]
         _case(ctx, "RESET", directed, full, families=fam)
         ctx.cell("reset:" + reset[0])
         G = drv.new_graph(dn, directed, True)
@@ -253,3 +268,70 @@ def long_timelines(ctx, dn, audit, n=1):
         _case(ctx, "LONG", directed, prog)
         ctx.cell("long-timeline")
         run_program(ctx, dn, prog, directed, audit, every=7)
+
+
+def long_second_life(ctx, dn, audit, runs=70):
+    """one pair with `runs` separate runs, inspected, emptied, refilled unobserved with as many runs at other
+    instants, inspected again (indices kept per pair and validated by their length)"""
+    from .. import driver as drv
+    directed = ctx.rng.random() < 0.5
+    G = drv.new_graph(dn, directed, True)
+    m = Model(directed, True)
+    prog = []
+    for life, base in ((0, 0), (1, 1)):
+        t = base
+        for _ in range(runs):
+            ln = ctx.rng.choice((1, 2))
+            op = ("add", 0, 1, t, t + ln)
+            prog.append(op)
+            t += ln + 2
+        if life == 0:
+            prog.append((ctx.rng.choice(("clear", "clear_edges")),))
+    _case(ctx, "LONG-RESET", directed, prog)
+    ctx.cell("long-second-life")
+    for i, op in enumerate(prog):
+        ok, _ = drv.step(ctx, dn, G, m, op)
+        if not ok:
+            return
+        if i == runs - 1:
+            guarded(ctx, "long-reset:first-life", audit, ctx, dn, G, m)
+    guarded(ctx, "long-reset:second-life", audit, ctx, dn, G, m)
+
+
+def around_zero(ctx, dn, audit, max_len):
+    """EX0: every history over one pair with t in -3..1 (runs ending at -1, spans across 0), both classes"""
+    alpha = []
+    for t in range(-3, 2):
+        for sp in (None, 1, 2, 3):
+            alpha.append(("add", 0, 1, t, None if sp is None else t + sp))
+    for directed in (False, True):
+        for prog in gen.enumerate_histories(alpha, max_len, ctx.shard, ctx.nshards):
+            _case(ctx, "EX0", directed, prog)
+            run_program(ctx, dn, prog, directed, audit, every=0)
+    ctx.cell("ex:around-zero")
+
+
+def bulk_load(ctx, dn, audit):
+    """an empty graph filled by ONE sized bunch of 1200 pairs over 60 nodes (repeated pairs, both endpoint orders,
+    self-loops), then a few ordinary calls"""
+    rng = ctx.rng
+    directed = rng.random() < 0.5
+    nodes = list(range(60))
+    pairs = [(rng.choice(nodes), rng.choice(nodes)) for _ in range(1200)]
+    t = rng.randint(0, 5)
+    prog = [("addfrom", pairs, t, rng.choice((None, t + 2)))]
+    for _ in range(3):
+        u, v = rng.choice(pairs)
+        prog.append(("add", v if not directed and rng.random() < 0.5 else u, u if not directed and rng.random() < 0.5 else v,
+                     t + rng.randint(3, 6), None))
+    directed = ctx.shard % 4 == 2          # shards 0, 4, ...: undirected; 2, 6, ...: directed
+    _case(ctx, "BULK-LOAD", directed, prog)
+    ctx.cell("bulk-load(1200 pairs)")
+    from .. import driver as drv
+    G = drv.new_graph(dn, directed, True)
+    m = Model(directed, True)
+    for op in prog:
+        ok, _r = drv.step(ctx, dn, G, m, op)       # the bunch is handed over as one sized list
+        if not ok:
+            return
+        guarded(ctx, "bulk-load", audit, ctx, dn, G, m)
